@@ -375,6 +375,13 @@ func mapRefMembers(cfg gen.Config) []member {
 		out = append(out, member{name: fmt.Sprintf("map with values given by reference required=%v", req), cfg: cfg, root: &fam.Spec{Kind: "object", Props: []*fam.Prop{
 			{Label: "servers", Spec: &fam.Spec{Kind: "object", AddPropsSpec: vo}, Required: req}, {Label: "labels", Spec: &fam.Spec{Kind: "object", AddPropsSpec: vs}, Required: req}}}})
 	}
+	// a map whose value schema is typed and ALSO carries a "not" keyword (which the generator does not translate): the value type is
+	// still the one its "type" states
+	for _, vt := range []string{"string", "integer"} {
+		out = append(out, member{name: "map with a typed value schema that also has a not keyword (" + vt + ")", cfg: cfg, root: &fam.Spec{Kind: "object", Props: []*fam.Prop{
+			{Label: "labels", Spec: &fam.Spec{Kind: "object", AddPropsSpec: &fam.Spec{Kind: vt, NotKw: true}}, Required: true},
+			{Label: "plain", Spec: &fam.Spec{Kind: "object", AddProps: vt}}}}})
+	}
 	return out
 }
 
